@@ -494,9 +494,24 @@ def execute(case):
     return res
 
 
+def _mix(x):
+    M = (1 << 64) - 1
+    x = (x + 0x9e3779b97f4a7c15) & M
+    x = ((x ^ (x >> 30)) * 0xbf58476d1ce4e5b9) & M
+    x = ((x ^ (x >> 27)) * 0x94d049bb133111eb) & M
+    return x ^ (x >> 31)
+
+
+def size_profile(event_seed):
+    """the same choice simfw.h makes: which table of collection sizes the events of this run use"""
+    k = _mix(event_seed ^ 0x5eedc0ffee) % 10
+    return "usual_0_to_4" if k < 6 else ("sparse_0_to_2" if k < 8 else "dense_0_to_17")
+
+
 def _execute_inner(case):
     work = tempfile.mkdtemp(prefix="c-", dir=_scratch)
     res = {"log": [], "violations": [], "stats": {}, "states": [], "nontrivial": []}
+    res["stats"]["reach:collection_sizes_" + size_profile(case["event_seed"])] = 1
     try:
         exe, status, err = translate_and_build(case, work)
         res["stats"][status] = 1
